@@ -5,5 +5,5 @@ cd /verif
 for id in $(python3 -c "import json;print(' '.join(c['property_id'] for c in json.load(open('MANIFEST.json'))['checks']))"); do
   out=$(./check $id --tier $tier 2>&1); code=$?
   echo "$id exit=$code $(echo "$out" | tail -1)"
-  echo "$out" | grep -E "^(VIOLATION|HARNESS-ERROR|KNOWN-FINDING|WARNING)" | head -5
+  echo "$out" | grep -E "^(VIOLATION|HARNESS-ERROR|KNOWN-FINDING|WARNING|note:)" | head -5
 done
